@@ -4,11 +4,15 @@ import RichModel.Lemmas.ColorExtra
 # C18 — colour down-conversion stays in gamut, is idempotent and picks the nearest entry
 
 Property theorems only (helper lemmas and the specification predicates `Color.WF`, `Color.InGamut`,
-`IsNearest`, `onGreyRamp`, `sgrSpec` live in `Lemmas/Color.lean`).
+`IsNearest`, `onGreyRamp`, `sgrSpec`, `sourceTriplet` live in `Lemmas/Color.lean`; those of the second
+half — `get_truecolor` / `TerminalTheme` (`truecolorSpec`, `displayPalette`), `ColorTriplet.hex` /
+`parse_rgb_hex`, `blend_rgb` — in `Lemmas/ColorExtra.lean`).  33 theorems.
 
 `P := richPalettes` are the palettes translated from `rich/_palettes.py` / `rich/terminal_theme.py`
 on this run; the only facts used about them are the side conditions `palettes_ok` (sizes 16/16/256,
-components ≤ 255), re-proved by `decide +kernel` on every run.
+components ≤ 255) and `default_theme_ok` (the default theme has 16 ANSI colours), re-proved by
+`decide +kernel` on every run (`standard_display_is_theme_dependent` states two concrete table values
+as a documented observation, not a finding).
 
 `cfg : Cfg` carries (i) the code-variant flag `stdViaPalette` (`true` = rich 9.10.0 as found, `Cfg.today` — the name dates from before
 fix 2cec9e1; `false` = the repaired code that /repo contains now, `Cfg.repaired`) and (ii) the list `satExc` of (max, min) channel pairs where the IEEE-double
